@@ -68,6 +68,7 @@ func (v *Reader) Read(length int) string {
 	}
 	currentString := make([]byte, length)
 	n, err := v.contents.Read(currentString)
+	verifRead(v, "read", v.offset, length, currentString, n)
 	if err != nil {
 		panic(err)
 	}
@@ -84,6 +85,7 @@ func (v *Reader) ReadAt(length int, offset int) string {
 	currentString := make([]byte, length)
 	v.Seek(offset)
 	n, err := v.contents.Read(currentString)
+	verifRead(v, "readat", offset, length, currentString, n)
 	if err != nil {
 		panic(err)
 	}
